@@ -77,7 +77,7 @@ int __wrap_gethostname(char *name, size_t len)
 }
 
 /* virtual interfaces: the model driver has the same table */
-static const char *vif_names[] = { "", "lo", "eth0", "br-lan", "wlan0", "eth0.100", "abcdefghijklmno", NULL };
+static const char *vif_names[] = { "", "lo", "eth0", "br-lan", "wlan0", "eth0.100", "abcdefghijklmno", "eth0:1", NULL };
 static unsigned int vif_nametoindex(const char *n)
 {
   unsigned int i;
@@ -373,6 +373,20 @@ static void dump_channel(long k, const char *tag, int rc, ares_channel_t *c)
   printf(" lip4=%x lip6=", c->local_ip4);
   puthex(c->local_ip6, 16);
   printf("\n");
+  if (csv == NULL) {
+    /* the text form could not be built: say which interfaces the servers are on */
+    ares_slist_node_t *n;
+    int                first = 1;
+    printf("%ld R %si ifaces=", k, tag);
+    for (n = ares_slist_node_first(c->servers); n != NULL; n = ares_slist_node_next(n)) {
+      const ares_server_t *sv = ares_slist_node_val(n);
+      if (sv->ll_iface[0] == 0) continue;
+      printf("%s", first ? "" : ",");
+      puthexstr(sv->ll_iface);
+      first = 0;
+    }
+    printf("%s\n", first ? "-" : "");
+  }
   ares_free_string(csv);
 }
 
@@ -593,6 +607,9 @@ static void run_opt(long k, const params_t *p)
   /* dup */
   rc = ares_dup(&d, a);
   dump_channel(k, "C", rc, rc == ARES_SUCCESS ? d : NULL);
+  /* the socket function table (which carries the interface lookups) must be the source's */
+  if (rc == ARES_SUCCESS && d != NULL)
+    printf("%ld R C2 sf=%d\n", k, memcmp(&d->sock_funcs, &a->sock_funcs, sizeof(d->sock_funcs)) == 0 ? 1 : 0);
   if (d) ares_destroy(d);
 
   /* csv -> set -> csv on a fresh channel built from the same options, and on the channel itself */
